@@ -331,15 +331,15 @@ Section ExecFiring.
   Theorem update_fires_once : forall ctx d t asg w d' log n,
     do_update run_body true ctx d t asg w = (d', log, Ok n) ->
     exists d1 tb ups,
-      (if is_none ctx then fireS (d_trigs d) t Before (EvUpdate None) d else (d, [], None))
-        = (d1, spec_stmt ctx (d_trigs d) t Before (EvUpdate None), None)
+      (if is_none ctx then fireS (d_trigs d) t Before (EvUpdate (Some (map fst asg))) d else (d, [], None))
+        = (d1, spec_stmt ctx (d_trigs d) t Before (EvUpdate (Some (map fst asg))), None)
       /\ get_table d1 t = Some tb
       /\ update_plan ctx d1 tb asg w = inr ups
-      /\ log = spec_two_pass ctx (d_trigs d) t (EvUpdate None) (images ups)
+      /\ log = spec_two_pass ctx (d_trigs d) t (EvUpdate (Some (map fst asg))) (images ups)
       /\ n = length ups.
   Proof.
     intros ctx d t asg w d' log n H. unfold do_update in H. unfold Atomic.fireS, Atomic.fireRs in H.
-    destruct (if is_none ctx then fire_stmt db run_body true (d_trigs d) t Before (EvUpdate None) d else (d, [], None)) as [[d1 l1] r1] eqn:E1.
+    destruct (if is_none ctx then fire_stmt db run_body true (d_trigs d) t Before (EvUpdate (Some (map fst asg))) d else (d, [], None)) as [[d1 l1] r1] eqn:E1.
     destruct r1; [discriminate|].
     destruct (get_table d1 t) as [tb|] eqn:Et; [|discriminate].
     destruct (update_plan ctx d1 tb asg w) as [k|ups] eqn:Ep; [discriminate|].
@@ -348,13 +348,13 @@ Section ExecFiring.
                           then cascade_updates t c ups 0 d1 0 else (d1, None, 0)
               | None => (d1, None, 0) end) as [[d2 r2] m2] eqn:E2.
     destruct r2; [discriminate|].
-    destruct (fire_rows db run_body true (d_trigs d) t Before (EvUpdate None) (images ups) 0 d2) as [[d3 l3] r3] eqn:E3.
+    destruct (fire_rows db run_body true (d_trigs d) t Before (EvUpdate (Some (map fst asg))) (images ups) 0 d2) as [[d3 l3] r3] eqn:E3.
     destruct r3 as [[k c]|]; [discriminate|].
     destruct (apply_updates t ups 0 d3) as [[d4 r4] m4] eqn:E4.
     destruct r4; [discriminate|].
-    destruct (fire_rows db run_body true (d_trigs d) t After (EvUpdate None) (images ups) 0 d4) as [[d5 l5] r5] eqn:E5.
+    destruct (fire_rows db run_body true (d_trigs d) t After (EvUpdate (Some (map fst asg))) (images ups) 0 d4) as [[d5 l5] r5] eqn:E5.
     destruct r5 as [[k c]|]; [discriminate|].
-    destruct (if is_none ctx then fire_stmt db run_body true (d_trigs d) t After (EvUpdate None) d5 else (d5, [], None)) as [[d6 l6] r6] eqn:E6.
+    destruct (if is_none ctx then fire_stmt db run_body true (d_trigs d) t After (EvUpdate (Some (map fst asg))) d5 else (d5, [], None)) as [[d6 l6] r6] eqn:E6.
     destruct r6; [discriminate|].
     inversion H; subst.
     pose proof (opt_stmt_ok _ _ _ _ _ _ _ _ E1) as H1. apply opt_stmt_ok in E6.
@@ -476,13 +476,29 @@ Section ExecFiring.
       destruct r3; inversion H; subst; repeat (apply Forall_app; split); auto.
   Qed.
 
-  (** the bulk-transfer path looks up no trigger at all *)
-  Lemma bulk_path_fires_nothing : forall b ctx d t src dst s d' log o,
-    do_insert_select run_body b ctx d t src true = (d', log, o) ->
-    get_table d t = Some dst -> get_table d src = Some s -> bulk_eligible dst s = true -> log = [].
+  (** the bulk-transfer path is only entered when no INSERT trigger exists on the destination: it fires nothing, and
+      nothing is what the specification list asks for *)
+  Lemma spec_insert_no_triggers : forall ctx trigs t rows,
+    triggers_for_table trigs t EvInsert = [] -> spec_insert ctx trigs t rows = [].
   Proof.
-    intros b ctx d t src dst s d' log o H Ht Hs He. unfold do_insert_select in H. rewrite Ht, Hs, He in H.
-    cbn [andb] in H. destruct (bulk_loop d t (tb_rows s) 0 []) as [dd oo]. inversion H; reflexivity.
+    intros ctx trigs t rows H. destruct (no_triggers_spec _ _ _ H) as [Hs Hr].
+    unfold spec_insert, spec_stmt, spec_row. cbn [fst snd]. rewrite !Hs.
+    assert (Hf : flat_map (fun r : row => fired (row_triggers trigs t Before EvInsert None (Some r)) None (Some r)
+                                       ++ fired (row_triggers trigs t After EvInsert None (Some r)) None (Some r)) rows = []).
+    { erewrite flat_map_ext; [apply flat_map_nil|]. intros; rewrite !Hr; reflexivity. }
+    rewrite Hf. destruct (is_none ctx); reflexivity.
+  Qed.
+
+  Lemma bulk_path_fires_as_specified : forall b ctx d t src dst s d' log o,
+    do_insert_select run_body b ctx d t src true = (d', log, o) ->
+    get_table d t = Some dst -> get_table d src = Some s ->
+    is_none (hd_error (triggers_for_table (d_trigs d) t EvInsert)) && bulk_eligible dst s = true ->
+    log = [] /\ forall rows, spec_insert ctx (d_trigs d) t rows = [].
+  Proof.
+    intros b ctx d t src dst s d' log o H Ht Hs He. unfold do_insert_select in H. rewrite Ht, Hs in H.
+    cbn [andb] in H. rewrite He in H. destruct (bulk_transfer d t dst (tb_rows s)) as [dd oo]. inversion H; subst.
+    split; [reflexivity|]. intro rows. apply spec_insert_no_triggers. apply andb_prop in He. destruct He as [He _].
+    apply hd_error_none. exact He.
   Qed.
 
   Lemma do_insert_select_legit : forall b ctx d t src star d' log o,
@@ -491,16 +507,15 @@ Section ExecFiring.
     intros b ctx d t src star d' log o H. unfold do_insert_select in H.
     destruct (get_table d t) as [dst|]; [|inversion H; constructor].
     destruct (get_table d src) as [s|]; [|inversion H; constructor].
-    destruct (star && bulk_eligible dst s).
-    - destruct (bulk_loop d t (tb_rows s) 0 []) as [dd oo]. inversion H; constructor.
+    destruct (star && is_none (hd_error (triggers_for_table (d_trigs d) t EvInsert)) && bulk_eligible dst s).
+    - destruct (bulk_transfer d t dst (tb_rows s)) as [dd oo]. inversion H; constructor.
     - destruct (Nat.eqb _ _); [|inversion H; constructor]. eapply do_insert_rows_legit; eauto.
   Qed.
-
   Lemma do_update_legit : forall b ctx d t asg w d' log o,
-    do_update run_body b ctx d t asg w = (d', log, o) -> Forall (ok_firing ctx (d_trigs d) t (EvUpdate None)) log.
+    do_update run_body b ctx d t asg w = (d', log, o) -> Forall (ok_firing ctx (d_trigs d) t (EvUpdate (Some (map fst asg)))) log.
   Proof.
     intros b ctx d t asg w d' log o H. unfold do_update in H. unfold Atomic.fireS, Atomic.fireRs in H.
-    destruct (if is_none ctx then fire_stmt db run_body b (d_trigs d) t Before (EvUpdate None) d else (d, [], None)) as [[d1 l1] r1] eqn:E1.
+    destruct (if is_none ctx then fire_stmt db run_body b (d_trigs d) t Before (EvUpdate (Some (map fst asg))) d else (d, [], None)) as [[d1 l1] r1] eqn:E1.
     apply opt_stmt_legit in E1; [|auto].
     destruct r1; [inversion H; subst; exact E1|].
     destruct (get_table d1 t) as [tb|] eqn:Et; [|inversion H; subst; exact E1].
@@ -510,15 +525,15 @@ Section ExecFiring.
                           then cascade_updates t c ups 0 d1 0 else (d1, None, 0)
               | None => (d1, None, 0) end) as [[d2 r2] m2] eqn:E2.
     destruct r2; [inversion H; subst; exact E1|].
-    destruct (fire_rows db run_body b (d_trigs d) t Before (EvUpdate None) (images ups) 0 d2) as [[d3 l3] r3] eqn:E3.
+    destruct (fire_rows db run_body b (d_trigs d) t Before (EvUpdate (Some (map fst asg))) (images ups) 0 d2) as [[d3 l3] r3] eqn:E3.
     apply fire_rows_legit in E3; [|auto]. apply (rows_to_ok ctx) in E3.
     destruct r3 as [[k c]|]; [inversion H; subst; apply Forall_app; auto|].
     destruct (apply_updates t ups 0 d3) as [[d4 r4] m4] eqn:E4.
     destruct r4; [inversion H; subst; apply Forall_app; auto|].
-    destruct (fire_rows db run_body b (d_trigs d) t After (EvUpdate None) (images ups) 0 d4) as [[d5 l5] r5] eqn:E5.
+    destruct (fire_rows db run_body b (d_trigs d) t After (EvUpdate (Some (map fst asg))) (images ups) 0 d4) as [[d5 l5] r5] eqn:E5.
     apply fire_rows_legit in E5; [|auto]. apply (rows_to_ok ctx) in E5.
     destruct r5 as [[k c]|]; [inversion H; subst; repeat (apply Forall_app; split); auto|].
-    destruct (if is_none ctx then fire_stmt db run_body b (d_trigs d) t After (EvUpdate None) d5 else (d5, [], None)) as [[d6 l6] r6] eqn:E6.
+    destruct (if is_none ctx then fire_stmt db run_body b (d_trigs d) t After (EvUpdate (Some (map fst asg))) d5 else (d5, [], None)) as [[d6 l6] r6] eqn:E6.
     apply opt_stmt_legit in E6; [|auto].
     destruct r6; inversion H; subst; repeat (apply Forall_app; split); auto.
   Qed.
@@ -557,11 +572,11 @@ End ExecFiring.
 Definition stmt_target (s : stmt) : nat :=
   match s with SInsert t _ _ | SInsertSel t _ _ | SUpdate t _ _ | SDelete t _ => t end.
 
-(** the event each executor passes to find_triggers: UPDATE always passes [Update(None)] *)
+(** the event each executor passes to find_triggers: UPDATE passes [Update(Some(assigned columns))] *)
 Definition stmt_event (s : stmt) : event :=
   match s with
   | SInsert _ _ _ | SInsertSel _ _ _ => EvInsert
-  | SUpdate _ _ _ => EvUpdate None
+  | SUpdate _ asg _ => EvUpdate (Some (map fst asg))
   | SDelete _ _ => EvDelete
   end.
 
@@ -582,17 +597,12 @@ Theorem exec_firings_legit : forall fuel ctx d s d' log o,
   Forall (ok_firing ctx (d_trigs d) (stmt_target s) (stmt_event s)) log.
 Proof. intros fuel ctx d s d' log o H. destruct fuel; cbn [exec] in H; eapply step_dml_legit; eauto. Qed.
 
-Lemma event_eqb_stmt_event : forall e s, event_eqb e (stmt_event s) = true -> e = stmt_event s.
-Proof.
-  intros e s H. destruct s; cbn [stmt_event] in *; destruct e as [|[cols|]|]; cbn in H; try discriminate; reflexivity.
-Qed.
-
 (** what every firing of every statement (successful or not, at any nesting depth) satisfies *)
 Theorem firing_facts : forall fuel ctx d s d' log o f,
   exec fuel ctx d s = (d', log, o) -> In f log ->
   In (f_trig f) (d_trigs d)
   /\ t_table (f_trig f) = stmt_target s
-  /\ t_event (f_trig f) = stmt_event s
+  /\ event_match (t_event (f_trig f)) (stmt_event s) = true
   /\ t_enabled (f_trig f) = true
   /\ (t_timing (f_trig f) = Before \/ t_timing (f_trig f) = After)
   /\ when_fires (f_trig f) (f_old f) (f_new f) = true
@@ -604,7 +614,7 @@ Proof.
   unfold find_triggers, triggers_for_table in Hf.
   apply filter_In in Hf. destruct Hf as [Hf Hte]. apply filter_In in Hf. destruct Hf as [Hf Htb].
   apply andb_prop in Hte. destruct Hte as [Htm' Hen]. apply andb_prop in Htb. destruct Htb as [Htab Hev].
-  apply Nat.eqb_eq in Htab. apply event_eqb_stmt_event in Hev.
+  apply Nat.eqb_eq in Htab.
   assert (Htim : t_timing (f_trig f) = tm) by (destruct (t_timing (f_trig f)), tm; cbn in Htm'; congruence).
   repeat split; auto.
   - rewrite Htim. exact Htm.
@@ -613,49 +623,42 @@ Proof.
   - destruct ctx as [c|]; [|reflexivity]. assert (Hgr : t_gran (f_trig f) = GRow) by (apply Hc; discriminate). congruence.
 Qed.
 
-(** an UPDATE OF trigger never fires, whatever the statement: the UPDATE executor looks triggers up with
-    [Update(None)] and the catalog compares whole events *)
-Theorem update_of_never_fires : forall fuel ctx d s d' log o f cols,
-  exec fuel ctx d s = (d', log, o) -> In f log -> t_event (f_trig f) <> EvUpdate (Some cols).
+(** which triggers an event lookup finds: INSERT and DELETE statements only triggers of exactly that event; an UPDATE
+    statement every UPDATE trigger without a column list and the UPDATE OF triggers that name an assigned column *)
+Lemma event_match_cases : forall have want,
+  event_match have want = true ->
+  match want with
+  | EvInsert => have = EvInsert
+  | EvDelete => have = EvDelete
+  | EvUpdate None => exists cols, have = EvUpdate cols
+  | EvUpdate (Some assigned) =>
+      have = EvUpdate None \/ exists monitored, have = EvUpdate (Some monitored)
+                                                /\ exists c, In c monitored /\ In c assigned
+  end.
+Proof.
+  intros have want H. destruct have as [|[m|]|], want as [|[a|]|]; cbn in H; try discriminate; eauto.
+  right. exists m. split; [reflexivity|]. apply existsb_exists in H. destruct H as (c & Hc & Hx).
+  apply existsb_exists in Hx. destruct Hx as (c' & Hc' & He). apply Nat.eqb_eq in He. subst c'. eauto.
+Qed.
+
+(** an UPDATE OF trigger fires only for UPDATE statements that assign one of its columns *)
+Theorem update_of_needs_assigned_column : forall fuel ctx d s d' log o f cols,
+  exec fuel ctx d s = (d', log, o) -> In f log -> t_event (f_trig f) = EvUpdate (Some cols) ->
+  exists t asg w, s = SUpdate t asg w /\ exists c, In c cols /\ In c (map fst asg).
 Proof.
   intros fuel ctx d s d' log o f cols H Hin Hev.
-  destruct (firing_facts _ _ _ _ _ _ _ _ H Hin) as (_ & _ & He & _). rewrite Hev in He. destruct s; discriminate.
+  destruct (firing_facts _ _ _ _ _ _ _ _ H Hin) as (_ & _ & He & _). rewrite Hev in He.
+  apply event_match_cases in He. destruct s as [t ok rows | t src star | t asg w | t w]; cbn [stmt_event] in He; try discriminate.
+  destruct He as [He|(m & Hm & c & Hc & Ha)]; [discriminate|]. inversion Hm; subst m. exists t, asg, w. eauto.
 Qed.
 
-Lemma eval_when_no_row : forall c, eval_when c None None = None.
-Proof. reflexivity. Qed.
-
-Lemma fire_list_when_no_row : forall DB run_body trs (d : DB) d' log r tr c,
-  fire_list DB run_body trs None None d = (d', log, r) -> In tr trs -> t_when tr = Some c -> r <> None.
-Proof.
-  induction trs as [|t0 rest IH]; intros d d' log r tr c H Hin Hw; [contradiction|].
-  cbn [fire_list] in H.
-  destruct (execute_trigger DB run_body t0 None None d) as [[d1 l1] r1] eqn:E1.
-  destruct r1 as [c1|]; [inversion H; discriminate|].
-  destruct Hin as [Heq|Hin].
-  - subst t0. unfold execute_trigger in E1. rewrite Hw in E1. cbn in E1. discriminate.
-  - destruct (fire_list DB run_body rest None None d1) as [[d2 l2] r2] eqn:E2. inversion H; subst.
-    eapply IH; eauto.
-Qed.
-
-(** a statement-level trigger with a WHEN condition makes every statement on its table and event fail: the
-    condition is evaluated against "NEW, else OLD", and a statement-level firing has neither *)
-Theorem stmt_trigger_with_when_fails_update : forall f d t asg w tr c,
-  In tr (d_trigs d) -> t_table tr = t -> t_event tr = EvUpdate None -> t_timing tr = Before ->
-  t_gran tr = GStmt -> t_enabled tr = true -> t_when tr = Some c ->
-  exists d' log cz, exec (S f) None d (SUpdate t asg w) = (d', log, Err AtBeforeStmt cz 0).
-Proof.
-  intros f d t asg w tr c Hin Ht He Htm Hg Hen Hw.
-  cbn [exec step_dml]. unfold do_update. cbn [is_none]. unfold fireS, fire_stmt.
-  destruct (fire_list db _ (stmt_triggers (d_trigs d) t Before (EvUpdate None)) None None d) as [[d1 l1] r1] eqn:E1.
-  assert (Hr : r1 <> None).
-  { eapply fire_list_when_no_row; [exact E1| |exact Hw].
-    unfold stmt_triggers, find_triggers, triggers_for_table. repeat (apply filter_In; split); auto.
-    - rewrite Ht, He, Nat.eqb_refl. reflexivity.
-    - rewrite Htm, Hen. reflexivity.
-    - rewrite Hg. reflexivity. }
-  destruct r1 as [cz|]; [|congruence]. eauto.
-Qed.
+(** a statement-level firing has neither OLD nor NEW: its WHEN condition is evaluated against an empty row *)
+Lemma eval_when_no_row : forall c,
+  eval_when c None None =
+  match eval_cond (mkEnv (Some []) (Some (None, None))) c with
+  | RBool (Some b) => Some b | RBool None => Some false | _ => None
+  end.
+Proof. intro c. unfold eval_when. destruct (eval_cond _ c) as [|[[|]|]|]; reflexivity. Qed.
 
 (** ** The three firing theorems for the recursive instance (a statement executed at depth < 16) *)
 Theorem exec_insert_fires_once : forall f ctx d t tb rows d' log n vrows,
@@ -670,11 +673,11 @@ Qed.
 Theorem exec_update_fires_once : forall f ctx d t asg w d' log n,
   exec (S f) ctx d (SUpdate t asg w) = (d', log, Ok n) ->
   exists d1 tb ups,
-    (if is_none ctx then fire_stmt db (body_runner f) true (d_trigs d) t Before (EvUpdate None) d else (d, [], None))
-      = (d1, spec_stmt ctx (d_trigs d) t Before (EvUpdate None), None)
+    (if is_none ctx then fire_stmt db (body_runner f) true (d_trigs d) t Before (EvUpdate (Some (map fst asg))) d else (d, [], None))
+      = (d1, spec_stmt ctx (d_trigs d) t Before (EvUpdate (Some (map fst asg))), None)
     /\ get_table d1 t = Some tb
     /\ update_plan ctx d1 tb asg w = inr ups
-    /\ log = spec_two_pass ctx (d_trigs d) t (EvUpdate None) (images ups)
+    /\ log = spec_two_pass ctx (d_trigs d) t (EvUpdate (Some (map fst asg))) (images ups)
     /\ n = length ups.
 Proof. intros f ctx d t asg w d' log n H. cbn [exec step_dml] in H. eapply update_fires_once; eauto. Qed.
 
@@ -688,12 +691,15 @@ Corollary two_pass_zero_rows : forall ctx trigs t ev,
   spec_two_pass ctx trigs t ev [] = spec_stmt ctx trigs t Before ev ++ spec_stmt ctx trigs t After ev.
 Proof. reflexivity. Qed.
 
-(** the INSERT ... SELECT * fast path fires nothing, whatever triggers exist *)
-Theorem exec_bulk_path_fires_nothing : forall fuel ctx d t src dst s d' log o,
+(** the INSERT ... SELECT * fast path is entered only when the destination has no INSERT trigger: it fires nothing,
+    which is the specification list *)
+Theorem exec_bulk_path_fires_as_specified : forall fuel ctx d t src dst s d' log o,
   exec fuel ctx d (SInsertSel t src true) = (d', log, o) ->
-  get_table d t = Some dst -> get_table d src = Some s -> bulk_eligible dst s = true -> log = [].
+  get_table d t = Some dst -> get_table d src = Some s ->
+  is_none (hd_error (triggers_for_table (d_trigs d) t EvInsert)) && bulk_eligible dst s = true ->
+  log = [] /\ forall rows, spec_insert ctx (d_trigs d) t rows = [].
 Proof.
-  intros fuel ctx d t src dst s d' log o H Ht Hs He. destruct fuel; cbn [exec step_dml] in H; eapply bulk_path_fires_nothing; eauto.
+  intros fuel ctx d t src dst s d' log o H Ht Hs He. destruct fuel; cbn [exec step_dml] in H; eapply bulk_path_fires_as_specified; eauto.
 Qed.
 
 (** ** Witnesses *)
@@ -750,7 +756,7 @@ Module Witness2.
   Import Witness.
   Open Scope Z_scope.
 
-  (** UPDATE OF (C1): column C1 changes in both rows, yet nothing fires *)
+  (** UPDATE OF (C1) *)
   Definition d_upof := mkDb [t0; aud] [tr 1 0 After (EvUpdate (Some [1%nat])) GRow None true true].
   (** INSERT INTO T0 SELECT * FROM T2 with an AFTER INSERT row trigger *)
   Definition d_bulk := mkDb [t0; aud; src] [tr 1 0 After EvInsert GRow None false true].
@@ -766,36 +772,42 @@ Module Witness2.
   Definition ins1 := SInsert 0 true [[ELit (VInt 1); ELit (VInt 0)]].
 End Witness2.
 
-(** the specification "fires when a listed column changes" is not met: the trigger is defined, enabled, on the
-    statement's table, column C1 changes in both affected rows, and the firing list is empty *)
-Theorem update_of_fires_refuted :
-  exists d s tr d' n,
-    In tr (d_trigs d) /\ t_event tr = EvUpdate (Some [1%nat]) /\ t_enabled tr = true /\ t_table tr = stmt_target s
-    /\ should_fire_update_of tr [VInt 1; VInt 10] [VInt 1; VInt 11] = true
-    /\ step d s = (d', [], Ok n) /\ n = 2%nat.
+(** UPDATE OF (C1): the trigger fires for every row whose C1 changes when the statement assigns C1, does not fire for a
+    row whose C1 keeps its value, and is not even looked up when the statement assigns only other columns *)
+Theorem update_of_fires_when_column_changes :
+  (exists d', step Witness2.d_upof Witness.upd = (d', spec_two_pass None (d_trigs Witness2.d_upof) 0 (EvUpdate (Some [1%nat]))
+       [(Some [VInt 1; VInt 10], Some [VInt 1; VInt 11]); (Some [VInt 2; VInt 20], Some [VInt 2; VInt 21])], Ok 2)
+     /\ length (spec_two_pass None (d_trigs Witness2.d_upof) 0 (EvUpdate (Some [1%nat]))
+                  [(Some [VInt 1; VInt 10], Some [VInt 1; VInt 11]); (Some [VInt 2; VInt 20], Some [VInt 2; VInt 21])]) = 2%nat)
+  /\ (exists d', step Witness2.d_upof (SUpdate 0 [(1%nat, ECase (CCmp OpEq (ECol 0) (ELit (VInt 1%Z))) (EAdd (ECol 1) 1%Z) (ECol 1))] None)
+                  = (d', [mkFiring (Witness.tr 1 0 After (EvUpdate (Some [1%nat])) GRow None true true)
+                                   (Some [VInt 1; VInt 10]) (Some [VInt 1; VInt 11]) None], Ok 2))
+  /\ (exists d', step Witness2.d_upof (SUpdate 0 [(0%nat, EAdd (ECol 0) 100%Z)] None) = (d', [], Ok 2)).
 Proof.
-  exists Witness2.d_upof, Witness.upd. eexists. eexists. eexists.
-  split; [left; reflexivity|]. split; [reflexivity|]. split; [reflexivity|]. split; [reflexivity|].
-  split; [reflexivity|]. split; [vm_compute; reflexivity|reflexivity].
+  split; [|split].
+  - eexists. split; vm_compute; reflexivity.
+  - eexists. vm_compute. reflexivity.
+  - eexists. vm_compute. reflexivity.
 Qed.
 
-(** the fast path of INSERT ... SELECT * inserts the row and fires nothing although the normal path's
-    specification list for the same rows is not empty *)
-Theorem bulk_path_skips_triggers_refuted :
-  exists d s d' n rows,
-    step d s = (d', [], Ok n) /\ n = 1%nat /\ rows = [[VInt 5; VInt 50]]
-    /\ spec_insert None (d_trigs d) 0 rows <> [].
-Proof.
-  exists Witness2.d_bulk, (SInsertSel 0 2 true). eexists. eexists. eexists.
-  split; [vm_compute; reflexivity|]. split; [reflexivity|]. split; [reflexivity|]. vm_compute. discriminate.
-Qed.
+(** INSERT INTO T0 SELECT * FROM T2 on a table with an AFTER INSERT row trigger takes the normal path and fires it *)
+Theorem insert_select_star_fires_triggers :
+  exists d', step Witness2.d_bulk (SInsertSel 0 2 true)
+             = (d', spec_insert None (d_trigs Witness2.d_bulk) 0 [[VInt 5; VInt 50]], Ok 1)
+  /\ length (spec_insert None (d_trigs Witness2.d_bulk) 0 [[VInt 5; VInt 50]]) = 1%nat.
+Proof. eexists. split; vm_compute; reflexivity. Qed.
 
-(** WHEN (1 = 1) on a statement-level AFTER DELETE trigger: the statement fails -- after the rows were deleted *)
-Theorem stmt_trigger_when_refuted :
-  exists d s d' log c m, step d s = (d', log, Err AtAfterStmt c m) /\ observe d' <> observe d.
+(** statement-level triggers: WHEN (1 = 1) fires once, WHEN (1 = 2) does not fire, and the statement succeeds *)
+Theorem stmt_trigger_when_gates :
+  (exists d' f, step Witness2.d_swhen (SDelete 0 (Some (CCmp OpEq (ECol 0) (ELit (VInt 1%Z))))) = (d', [f], Ok 1)
+                /\ f_old f = None /\ f_new f = None /\ t_gran (f_trig f) = GStmt)
+  /\ (exists d', step (mkDb [Witness.t0; Witness.aud]
+                          [Witness.tr 1 0 After EvDelete GStmt (Some (CCmp OpEq (ELit (VInt 1%Z)) (ELit (VInt 2%Z)))) false false])
+                     (SDelete 0 (Some (CCmp OpEq (ECol 0) (ELit (VInt 1%Z))))) = (d', [], Ok 1)).
 Proof.
-  exists Witness2.d_swhen, (SDelete 0 (Some (CCmp OpEq (ECol 0) (ELit (VInt 1))))). eexists. eexists. eexists. eexists.
-  split; [vm_compute; reflexivity|]. vm_compute. discriminate.
+  split.
+  - eexists. eexists. split; [vm_compute; reflexivity|]. cbn. tauto.
+  - eexists. vm_compute. reflexivity.
 Qed.
 
 (** rows removed by ON DELETE CASCADE fire no trigger of the child table *)
